@@ -6,7 +6,7 @@
 From Coq Require Import String.
 From Coq Require Import List NArith Bool.
 From HS Require Import Base.Prelude Model.Value Model.Escape Model.Version Model.Json Model.ZincDump Model.ZincParse.
-From HS Require Import Proofs.EscapeP Proofs.ZincParseP Proofs.ZincDumpP Proofs.ZincNumP Proofs.ZincDateP Proofs.ZincListP Proofs.ZincGridP.
+From HS Require Import Proofs.EscapeP Proofs.ZincParseP Proofs.ZincDumpP Proofs.ZincNumP Proofs.ZincDateP Proofs.ZincListP Proofs.ZincGridP Proofs.ZincDictP.
 Import ListNotations.
 Open Scope N_scope.
 
@@ -129,6 +129,31 @@ Theorem C01_grid_roundtrip_top : forall n names rows rts,
   zparse_grid (plain_text names rts) = Ok (plain_grid names rows).
 Proof. exact grid_roundtrip_top. Qed.
 
+(* VALUES WITH DICTS: zval n v t - v is a leaf that is also read back before a blank (every leaf above but the plain
+   reference), a list of zval (n-1) values, or a dict {k1:t1 k2:t2 ...} with distinct tag names over zval (n-1) values *)
+Theorem C01_values : forall n v t, zval n v t ->
+  (forall f, zdump (S (n + f)) false v = Ok t) /\
+  (forall k rest, delim rest -> p_scalar (S (n + k)) true (t ++ rest) = Some (Ok v, rest)).
+Proof. intros n v t H. split; [apply zval_dump; exact H|]. intros k rest Hd. exact (zval_readsd n v t H k rest Hd). Qed.
+(* whole grids whose cells are ANY values that are written and read back cell-wise (gcell: zcell or zval values) *)
+Theorem C01_grid_values : forall n names rows rts,
+  names <> [] -> Forall colname names -> NoDup names -> Forall2 (grid_gcells_ok n names) rows rts ->
+  (forall f, zdump_grid (S (S (n + f))) V30 [] (map (fun x => (x, [])) names) (map (fun cells => combine names cells) rows) = Ok (plain_text names rts)) /\
+  (forall k, p_grid (S (S (n + k))) true (plain_text names rts) = Some (Ok (plain_grid names rows), [])) /\
+  ((n <= length (plain_text names rts))%nat -> zparse_grid (plain_text names rts) = Ok (plain_grid names rows)).
+Proof. exact grid_roundtrip_values. Qed.
+Example C01_dict_nonvacuous :
+  zval 3 (VDict [(s_ "a", VStr (s_ "x")); (s_ "b", VList [VMarker; VDict []])]) (s_ "{a:""x"" b:[M,{}]}").
+Proof.
+  right. right. exists [(s_ "a", VStr (s_ "x"), s_ """x"""); (s_ "b", VList [VMarker; VDict []], s_ "[M,{}]")].
+  split; [reflexivity|]. split; [reflexivity|]. split; [repeat constructor; cbn [In]; intuition discriminate|].
+  constructor; [split; [repeat constructor|left; apply (leafd_str (s_ "x") (s_ "x")); reflexivity]|].
+  constructor; [|constructor]. split; [repeat constructor|].
+  right. left. exists [VMarker; VDict []], [s_ "M"; s_ "{}"]. split; [reflexivity|]. split; [reflexivity|].
+  constructor; [left; exact leafd_marker|]. constructor; [|constructor].
+  right. right. exists []. split; [reflexivity|]. split; [reflexivity|]. split; constructor.
+Qed.
+
 (* non-vacuity: a concrete grid meets the hypotheses; its text, and what the top-level reader makes of it *)
 Example C01_grid_nonvacuous :
   let names := [s_ "a"; s_ "b"] in
@@ -182,6 +207,8 @@ Example C01_grid_example :
   end.
 Proof. vm_compute. reflexivity. Qed.
 
+Print Assumptions C01_grid_values.
+Print Assumptions C01_values.
 Print Assumptions C01_grid_roundtrip.
 Print Assumptions C01_grid_roundtrip_top.
 Print Assumptions C01_nested_lists.
